@@ -23,7 +23,7 @@ RULE = ("input vectors = all pairs of versions (maj, min, pat in 0..k, pre in {n
         "and a seeded PEP 440 spelling; non-trivial = distinct (pair, map) combination")
 
 BATCH = 60000
-_OBS_FIELDS = ("old", "new", "pep_norm", "sem_in", "sem_out", "pep_back", "pep_out", "sem_back", "cls")
+_OBS_FIELDS = ("old", "new", "pep_norm", "sem_in", "sem_out", "pep_back", "pep_out", "sem_back", "cls", "rt_other")
 
 
 def run(chk):
@@ -99,8 +99,9 @@ def run(chk):
     chk.exhaustive = True
     chk.assumptions += [
         "release tuples have three components (semver's shape) in the round trips; the classification is also tried with "
-        "the 1- and 2-component PEP 440 spellings of the same versions (trailing zeros dropped); 4-component releases, "
-        "post/dev/local segments and epochs other than 0 are outside the grid",
+        "the 1- and 2-component PEP 440 spellings of the same versions (trailing zeros dropped); 1-, 2- and 4-component "
+        "releases are also round-tripped (same version by `packaging`); post/dev/local segments and epochs other than 0 are "
+        "outside the grid",
         "semver inputs are canonical (labels a/b/rc, no leading zeros); PEP 440 inputs use several equivalent spellings "
         "whose equivalence to the normalized form is taken from `packaging`",
         "click/tomlkit are stubbed to import dev_cli.changesets; the three functions under test do not use them",
